@@ -24,9 +24,9 @@ Lemma iddev_M_spec A B : length A = 9%nat -> length B = 9%nat ->
   app18 C18_iddev_M_R A B = Val [frob (msub3 I3 (mmul3 A (mtr3 B)))].
 Proof. intros LA LB. two9 A B LA LB. unfold app18, C18_iddev_M_R, frob. cbv zeta. val_eq; try (f_equal; unfold_m; ring). Qed.
 
-(* N-row branch, rows (A,B) and (B,A): each row is the 2-D result of that row *)
+(* N-row branch with N = 3, rows (A,B), (B,A), (A,A): each row is the 2-D result of that row *)
 Lemma chordal_M_batch_spec A B : length A = 9%nat -> length B = 9%nat ->
-  app18 C18_chordal_M_batch_R A B = Val [frob (msub3 A B); frob (msub3 B A)].
+  app18 C18_chordal_M_batch_R A B = Val [frob (msub3 A B); frob (msub3 B A); 0].
 Proof.
   intros LA LB. two9 A B LA LB. unfold app18, C18_chordal_M_batch_R, frob. cbv zeta. val_eq; try (f_equal; unfold_m; ring).
 Qed.
